@@ -13,13 +13,18 @@ value tokens are those of codec_common.to_tokens (with `u <hex>` elements).
     available() -> bool
     run(lines)  -> list of answer lines, one per input line
 """
+import atexit
 import os
 import shutil
 import subprocess
+import tempfile
 
 HERE = os.path.dirname(os.path.abspath(__file__))
 JAVA_DIR = os.path.join(HERE, "java")
-BUILD_DIR = os.path.join(JAVA_DIR, "build")
+# a build directory of this process's own (two checks running at once in one
+# /verif used to wipe each other's classes)
+BUILD_DIR = tempfile.mkdtemp(prefix="verif-java-")
+atexit.register(shutil.rmtree, BUILD_DIR, True)
 BUILD_SH = os.path.join(JAVA_DIR, "build.sh")
 
 BUILD_TIMEOUT = 300     # seconds
@@ -64,6 +69,7 @@ def available(rebuild=False):
     try:
         p = subprocess.run(
             ["sh", BUILD_SH], stdin=subprocess.DEVNULL,
+            env=dict(os.environ, VERIF_JAVA_OUT=BUILD_DIR),
             stdout=subprocess.PIPE, stderr=subprocess.STDOUT,
             timeout=BUILD_TIMEOUT)
     except (OSError, subprocess.TimeoutExpired) as e:
